@@ -302,11 +302,18 @@ func runCheat(cz *concretiser, cr *credential, c aCase, rng *mrand.Rand, res *hx
 	}
 	rv := randBits(rng, P.LvCommit)
 
+	if c.Ecoef == "zeroA" {
+		// the group element A is a representative of 0 mod n
+		Ap = []*gobig.Int{gobig.NewInt(0), new(gobig.Int).Set(n), new(gobig.Int).Neg(n), new(gobig.Int).Lsh(n, 1)}[rng.Intn(4)]
+	}
 	build := func(re *gobig.Int) (*gabi.ProofD, *gobig.Int) {
 		T := modexp(Ap, re, n)
 		T.Mul(T, modexp(pk.S.Go(), rv, n)).Mod(T, n)
 		for i, ri := range rnd {
 			T.Mul(T, modexp(pk.R[i].Go(), ri, n)).Mod(T, n)
+		}
+		if c.Ecoef == "zeroA" {
+			T.SetInt64(0) // what a verifier that went on would reconstruct
 		}
 		chNonce := nonce
 		if c.Sess == "other" {
